@@ -139,6 +139,15 @@ def family_outside(tier, seed):
         dict(src="export function f(float3 v) -> float { return v.x; }", name="outside: vector parameter", tags=["outside"]),
         dict(src="export function f(int a) -> int { a; return a; }", name="outside: expression statement", tags=["outside"]),
     ]
+    # parameters and results that are not wasm value types, used or not: the signature itself must be refused (or be valid)
+    S = "struct S { int i; float f; }\n"
+    for T in ("float2", "float3", "float4", "int3", "uint2", "float3x3", "float4x4", "int[3]", "float[2]", "int[2][2]", "float3[2]", "S", "S[2]"):
+        pre = S if T.startswith("S") else ""
+        out.append(dict(src=pre + f"export function f({T} v, int b) -> int {{ return b + 1; }}", name=f"outside: unused {T} parameter", tags=["outside", "aggregate-signature"]))
+        out.append(dict(src=pre + f"export function f(int b, {T} v) -> int {{ return b; }}", name=f"outside: unused trailing {T} parameter", tags=["outside", "aggregate-signature"]))
+        out.append(dict(src=pre + f"export function f({T} v) -> void {{ return; }}", name=f"outside: {T} parameter of a void function", tags=["outside", "aggregate-signature"]))
+        out.append(dict(src=pre + f"export function f({T} v) -> {T} {{ return v; }}", name=f"outside: {T} passed through", tags=["outside", "aggregate-signature"]))
+        out.append(dict(src=pre + f"function h({T} v, int b) -> int {{ return b; }}\nexport function f(int a) -> int {{ return a + 1; }}", name=f"outside: {T} parameter of a function that is not exported", tags=["outside", "aggregate-signature"]))
     return out
 
 
